@@ -2,4 +2,4 @@
 # Serialised build of Coq targets (same lock as ./check):  tools/coqmake.sh props/Prop_C14.vo ...
 cd "$(dirname "$0")/.."
 mkdir -p build
-exec flock build/.build.lock bash -c 'tools/mkcoqproject.sh && cd coq && timeout ${COQ_TIMEOUT:-1800} make -j8 "$@"' _ "$@"
+exec flock build/.build.lock bash -c 'ulimit -v ${VERIF_COQ_MEM_KB:-12582912}; tools/mkcoqproject.sh && cd coq && timeout ${COQ_TIMEOUT:-900} make -j8 "$@"' _ "$@"
